@@ -1180,6 +1180,8 @@ def cleanup_stale_workdirs():
     """Scratch directories of earlier runs are kept when something was reported; remove those whose process is gone and
     that are older than half an hour (the most recent one stays available long enough for inspection)."""
     from vlib import WORKROOT
+    if not os.path.isdir(WORKROOT):          # first check ever run in a fresh checkout
+        return
     for d in os.listdir(WORKROOT):
         m = re.match(rf"^{PROP}\.run(\d+)$", d)
         if not m:
